@@ -106,9 +106,20 @@ def build_pool(S, rng, n):
     u3 = globals()["UserBBAN"]("DE", t0[4:])
     u3.note = "x"
     pool += [("IBAN_subclass", u1), ("IBAN", S.IBAN(t0)), ("BIC_subclass", u2), ("BIC", S.BIC("GENODEM1GLS")), ("BBAN_subclass", u3), ("BBAN", S.BBAN("DE", t0[4:]))]
+    # unvalidated objects far longer than anything valid (a pasted line), and empty ones
+    for n_ in (65, 129, 300, 5000):
+        junk = "".join(rng.choice("ABCDEFGH0123456789 -") for _ in range(n_))
+        pool.append(("IBAN", S.IBAN(junk, allow_invalid=True)))
+        pool.append(("BIC", S.BIC(junk, allow_invalid=True)))
+        pool.append(("BBAN", S.BBAN("DE", junk)))
+    pool.append(("IBAN", S.IBAN("", allow_invalid=True)))
+    pool.append(("BIC", S.BIC("", allow_invalid=True)))
     pool.append(("BBAN", S.BBAN("", "")))
     pool.append(("BBAN", S.BBAN("XX", "123")))
     return pool
+
+
+_STR_NAMES = set(dir(str))
 
 
 def state(o):
@@ -218,6 +229,16 @@ def run_shard(shard, out_base):
                 mon.viol(f"dict_key_not_interchangeable:{la.split('_')[0]}", {"a": [la, esc(sa)]}, "found", "KeyError")
             mon.tally("hash_checked")
             # copies
+            if i % 2 == 1:
+                # every public attribute read once before copying (whatever a read leaves on the object travels
+                # with its copies)
+                for name_ in dir(type(a)):
+                    if not name_.startswith("_") and name_ not in _STR_NAMES:
+                        try:
+                            getattr(a, name_)
+                        except Exception:  # noqa: BLE001, S110
+                            pass
+                mon.tally("objects_with_every_attribute_read_before_copying")
             st = state(a)
             methods = [("copy", copy.copy), ("deepcopy", copy.deepcopy)] + [(f"pickle{p}", (lambda x, p=p: pickle.loads(pickle.dumps(x, protocol=p)))) for p in range(0, pickle.HIGHEST_PROTOCOL + 1)]
             for mname, fn in methods:
